@@ -31,6 +31,8 @@ def gen_cases(seed, tier):
         ops.add(rng.word())
     ops = sorted(ops)
     cs = []
+    # zero-class operands as the very FIRST inversions of the process (a refusal must not depend on earlier calls)
+    cs.append(('inv', 0, 0)); cs.append(('inv', P, 0)); cs.append(('div', 5, 0)); cs.append(('div', 5, P))
     for x in ops:
         cs.append(('inv', x, 0))
     for i, x in enumerate(ops):
